@@ -6,10 +6,11 @@ The C++ harness (harness/c04.cc) writes c04.dump.<shard>.tsv into the work direc
     X <tree#> <option mask> <hex of v.serialize(mask)>      for mask in {0, FORMAT, SORT_DICT_KEYS, FORMAT|SORT_DICT_KEYS}
 This stage decodes the text as latin-1 (phosg escapes every non-ASCII byte as \\u00XX, one escape per byte, so
 code point <-> byte is the faithful mapping), parses it with json.loads and compares with the tagged tree:
-ints exactly, floats at six significant digits, strings/keys byte-exact, no duplicate keys, same shape.
+ints exactly, floats at six significant digits (zeros: same sign bit), strings/keys byte-exact, no duplicate keys, same shape.
 """
 import glob
 import json
+import math
 import multiprocessing
 import os
 import re
@@ -59,6 +60,8 @@ def _cmp(tag, val, path):
             if isinstance(val, int):
                 return ("float-kind", "%s: float %r was written without fraction/exponent (read back as int %d)" % (path, f, val))
             if f == 0 and val == 0:
+                if math.copysign(1.0, f) != math.copysign(1.0, val):
+                    return ("float-zero-sign", "%s: %r (%s) read back as %r" % (path, f, body, val))
                 return None
             return None if _sig6(f) == _sig6(val) else ("float", "%s: float %r (%s) read back as %r" % (path, f, body, val))
         if t == "s":
